@@ -31,7 +31,7 @@ func (h *hObj) Serialize(serializer.DeSerializationMode, interface{}) ([]byte, e
 	return nil, errors.New("not used")
 }
 func (h *hObj) Deserialize(data []byte, _ serializer.DeSerializationMode, _ interface{}) (int, error) {
-	objDecodes++
+	countDecode(&objDecodes)
 	hdr := 0
 	switch h.den {
 	case serializer.TypeDenotationUint32:
@@ -172,7 +172,7 @@ func primStep(d *serializer.Deserializer, op string, p []int64) {
 		w := int(g(1))
 		rules := ruleTable[g(3)]
 		d.ReadSequenceOfObjects(func(b []byte) (int, error) {
-			objDecodes++
+			countDecode(&objDecodes)
 			if len(b) < w {
 				return 0, serializer.ErrDeserializationNotEnoughData
 			}
@@ -485,15 +485,15 @@ func streamFunc(cs *Case, in []byte) func() (int, error) {
 			}
 		case "ReadCollection":
 			err = stream.ReadCollection(r, lenTypes[g(0)], func(int) error {
-				objDecodes++
+				countDecode(&objDecodes)
 				_, e := stream.Read[uint16](r)
 				return e
 			})
 		case "ReadCollectionNested":
 			err = stream.ReadCollection(r, lenTypes[g(0)], func(int) error {
-				objDecodes++
+				countDecode(&objDecodes)
 				return stream.ReadCollection(r, lenTypes[g(1)], func(int) error {
-					objDecodes++
+					countDecode(&objDecodes)
 					_, e := stream.ReadBytesWithSize(r, lenTypes[g(2)])
 					return e
 				})
